@@ -31,6 +31,8 @@ type c20Plan struct {
 	KeepAlive bool   `json:"keepalive"`
 	Body      string `json:"body_built_with,omitempty"` // string | postargs | stream
 	Parsed    bool   `json:"request_header_parsed_from_wire,omitempty"` // a forwarding caller: the header was read from bytes, not built with setters
+	Warm      bool   `json:"request_object_used_before,omitempty"`      // the request object served a longer URL before (its buffers have capacity to spare)
+	InitPort  int    `json:"initial_port,omitempty"`
 }
 
 func init() { scenarios["C20"] = scenC20 }
@@ -61,6 +63,18 @@ func scenC20(e *Env) func() {
 	n := e.Range(1, 6)
 	for i := 0; i < n; i++ {
 		p.Hops = append(p.Hops, c20Hop{Status: Pick(e, 301, 302, 303, 307, 308), Host: c20Names[e.Int(len(c20Names))], Form: Pick(e, "absolute", "absolute", "scheme-relative", "host-relative", "relative", "userinfo", "upper", "port"), EOF1: e.Chance(10)})
+	}
+	p.Warm = e.Chance(40)
+	p.InitPort = Pick(e, 0, 0, 8080)
+	if e.Chance(25) {
+		// trusted hops first (subdomains, differently spelled), then a look-alike of what the
+		// chain went through: the anchor must stay the initial host whatever later hops wrote
+		p.Initial, p.API, p.Max = "example.com", "doredirects", 8
+		p.Hops = p.Hops[:0]
+		for i, nt := 0, e.Range(1, 3); i < nt; i++ {
+			p.Hops = append(p.Hops, c20Hop{Status: Pick(e, 302, 307, 308), Host: Pick(e, "sub.example.com", "sub.example.com", "deep.sub.example.com", "example.com"), Form: Pick(e, "absolute", "scheme-relative", "upper", "port")})
+		}
+		p.Hops = append(p.Hops, c20Hop{Status: Pick(e, 302, 307), Host: Pick(e, "sub.example", "sub.example", "xexample.com", "evilexample.com", "login.evilexample.com", "other.org"), Form: Pick(e, "absolute", "absolute", "scheme-relative", "port")})
 	}
 	e.Sample = p
 	return func() { c20Run(e, p) }
@@ -152,6 +166,15 @@ func c20Run(e *Env, p *c20Plan) {
 	cl := &fasthttp.Client{Dial: dial, ReadTimeout: 30 * time.Second, MaxIdleConnDuration: time.Second}
 	req, resp := fasthttp.AcquireRequest(), fasthttp.AcquireResponse()
 	url := "http://" + p.Initial + "/d/hop-0"
+	if p.InitPort != 0 {
+		url = fmt.Sprintf("http://%s:%d/d/hop-0", p.Initial, p.InitPort)
+	}
+	if p.Warm {
+		req.SetRequestURI("http://a-much-longer-host-name.deep.sub.example.com:8080/some/longer/path?with=query")
+		req.Header.Set("X-Earlier", "use")
+		_ = req.URI().Host()
+		req.Reset()
+	}
 	req.SetRequestURI(url)
 	req.Header.SetMethod(p.Method)
 	sensitive := map[string]string{"Authorization": "Bearer secret-token", "Cookie": "session=secret", "Cookie2": "v=secret2", "Proxy-Authorization": "Basic secretproxy", "Proxy-Authenticate": "secret-pa", "Www-Authenticate": "secret-wa"}
